@@ -332,7 +332,9 @@ pub fn run(tier: Tier) -> Report {
         Tier::Quick => matrix_sweep(&mut rep, &E5, &E5, "E'={-2,-.5,0,1,1.5}^9 x E'^3", base),
         Tier::Thorough => matrix_sweep(&mut rep, &E7, &E7, "E={-2,-1,-.5,0,.5,1,2}^9 x E^3", base),
     };
-    base += matrix_sweep(&mut rep, &ND5, &ND5, "non-dyadic {-1.7,-.3,.1,.7,1.9}^9 x same^3", base);
+    if !light() {
+        base += matrix_sweep(&mut rep, &ND5, &ND5, "non-dyadic {-1.7,-.3,.1,.7,1.9}^9 x same^3", base);
+    }
     // mul_mat over {-1,0,1}^9 pairs
     {
         let na = 19683u64;
